@@ -48,6 +48,17 @@ class C11(PropCheck):
             L = self.rng.randrange(0, 8)
             out.append(Case("x%d" % n, "EVAL", [("q", ("sel", ("slice", a, b, c))), arr(L)], {"len": L, "slice": [a, b, c]}))
             n += 1
+        # long arrays: lengths around the sizes at which an inline buffer, a chunked loop or a narrow counter would change path
+        for L in (9, 15, 16, 17, 31, 32, 33, 63, 64, 65, 100, 127, 128, 129, 255, 256, 257, 1000, 1025):
+            vals = [None, 0, 1, -1, 2, -2, 3, -3, 7, -7, L - 1, L, L + 1, -L, -L - 1, -L + 1, L // 2, -(L // 2), 10, -10, 100, -100, MAXI, -MAXI]
+            d = arr(L)
+            for _ in range(70 if self.tier == "quick" else 600):
+                a, b, c = (self.rng.choice(vals) for _ in range(3))
+                out.append(Case("g%d" % n, "EVAL", [("q", ("sel", ("slice", a, b, c))), d], {"len": L, "slice": [a, b, c]}))
+                n += 1
+            for i in (0, 1, -1, L - 1, L, -L, -L - 1, L // 2, 9, 10, 99, 100, 101, 255, 256):
+                out.append(Case("g%d" % n, "EVAL", [("q", ("sel", ("idx", i))), d], {"len": L, "idx": i}))
+                n += 1
         idxs = list(range(-10, 11)) + [MAXI, -MAXI, 2**31, -2**31, 2**32, -2**32]
         for L in range(0, 9):
             for i in idxs:
@@ -115,6 +126,7 @@ class EvalProp(PropCheck):
     n_thorough = 120000
     e2e_share = 0.6
     blank = 0.15
+    scale = False          # add the deterministic large-input cases of scale_pairs()
 
     def profile(self):
         return gen.Profile()
@@ -149,6 +161,11 @@ class EvalProp(PropCheck):
             c.id = "x%d" % j
             out.append(c)
         return out
+
+    def scale_cases(self):
+        if not self.scale:
+            return []
+        return [self.make_case("z%d" % j, q, d, meta) for j, (q, d, meta) in enumerate(scale_pairs())]
 
     # --- observables ---
     def obs(self, items):
@@ -242,8 +259,61 @@ def d7_applies(K):
     return not K.get("names_plain", True)
 
 
+def scale_pairs():
+    """deterministic (query, document) pairs on LARGE inputs: arrays and objects of several hundred entries, unions and
+    logical chains of dozens of operands, long non-ASCII strings, deep nesting -- what a size-triggered fast path, inline
+    buffer or narrow counter would get wrong while every small input behaves"""
+    out = []
+    def cur(*names):
+        return ("sq", "cur") + tuple(("n", S(n)) for n in names)
+    def cmpv(op, j):
+        return ("atom", ("cmp", op, cur("v"), ("lit", ("int", j))))
+    big_arr = ("a",) + tuple(("o", (S("t"), ("a", ("i", i), ("i", i + 1))), (S("v"), ("i", i)), (S("w"), S("s%d" % (i % 7)))) for i in range(300))
+    big_obj = ("o",) + tuple((S("k%03d" % i), ("i", i)) for i in range(300))
+    nums = ("a",) + tuple(("i", (i * 37) % 1001) for i in range(1100))
+    long_s = S("\u00e9" * 700 + "\U0001F600" * 300)
+    strs = ("a", long_s, S("a" * 1000), S("\u00e9" * 1000), S("\U0001F600" * 1000), S("a" * 999), S("a" * 255), S("a" * 256), S("a" * 257), S("a" * 65), S(""))
+    deep = nest_doc(60, leaf=("o", (S("x"), ("i", 1))))
+    A = [("q", ("sel", "wild")), ("q", ("sel", ("slice", 5, 290, 7))), ("q", ("sel", ("slice", None, None, -3))), ("q", ("sel", ("slice", 280, None, None))),
+         ("q", ("sels",) + tuple(("idx", (i * 13) % 300) for i in range(24))),
+         ("q", ("sels",) + tuple(("idx", i) for i in (0, 0, 299, 299, 150, 0))),
+         ("q", ("sels", ("slice", 0, 20, None), ("slice", 10, 40, 3), "wild", ("idx", 7))),
+         ("q", ("sel", ("filter", cmpv("gt", 150)))),
+         ("q", ("sel", ("filter", ("and",) + tuple(cmpv("ne", j) for j in range(0, 300, 10))))),
+         ("q", ("sel", ("filter", ("or",) + tuple(cmpv("eq", j) for j in range(3, 300, 10))))),
+         ("q", ("sel", ("filter", ("or", ("and", cmpv("gt", 10), cmpv("lt", 20)), ("and", cmpv("gt", 280), cmpv("le", 299)), cmpv("eq", 150))))),
+         ("q", ("desc", ("sel", ("name", S("v"))))), ("q", ("desc", ("sel", ("idx", 1)))), ("q", ("sel", "wild"), ("sel", "wild")),
+         ("q", ("desc", ("sel", "wild"))),
+         ("q", ("sel", ("filter", ("atom", ("cmp", "eq", ("fn", ("length", ("argt", ("rel", ("sel", ("name", S("t"))))))), ("lit", ("int", 2))))))),
+         ("q", ("sel", ("filter", ("atom", ("cmp", "ge", ("fn", ("count", ("argt", ("abs", ("sel", "wild"))))), ("lit", ("int", 300))))))),
+         ("q", ("sel", ("filter", ("atom", ("cmp", "eq", ("fn", ("count", ("argt", ("abs", ("desc", ("sel", ("name", S("v")))))))), ("lit", ("int", 300))))))),
+         ("q", ("sel", ("filter", ("atom", ("cmp", "eq", cur("v"), ("fn", ("value", ("argt", ("abs", ("sel", ("idx", 42)), ("sel", ("name", S("v"))))))))))))]
+    for q in A:
+        out.append((q, big_arr, {"scale": "array-300"}))
+    B = [("q", ("sel", "wild")), ("q", ("sels", ("name", S("k000")), ("name", S("k150")), ("name", S("k299")), ("name", S("k300")))),
+         ("q", ("desc", ("sel", "wild"))), ("q", ("sel", ("filter", ("atom", ("cmp", "gt", ("sq", "cur"), ("lit", ("int", 100))))))),
+         ("q", ("sel", ("filter", ("atom", ("cmp", "eq", ("fn", ("length", ("argt", ("abs",)))), ("lit", ("int", 300)))))))]
+    for q in B:
+        out.append((q, big_obj, {"scale": "object-300"}))
+    C = [("q", ("sel", "wild")), ("q", ("sel", ("slice", None, None, 97))), ("q", ("sel", ("slice", 1050, 10, -101))),
+         ("q", ("sel", ("filter", ("atom", ("cmp", "eq", ("sq", "cur"), ("lit", ("int", 1000))))))),
+         ("q", ("sel", ("filter", ("atom", ("cmp", "lt", ("sq", "cur"), ("lit", ("int", 3)))))))]
+    for q in C:
+        out.append((q, nums, {"scale": "array-1100"}))
+    for n in (1000, 999, 256, 257, 65, 0):
+        out.append((("q", ("sel", ("filter", ("atom", ("cmp", "eq", ("fn", ("length", ("argt", ("rel",)))), ("lit", ("int", n))))))), strs, {"scale": "long-strings"}))
+    out.append((("q", ("sel", ("filter", ("atom", ("cmp", "eq", ("sq", "cur"), ("sq", "root", ("i", 0))))))), strs, {"scale": "long-strings"}))
+    out.append((("q", ("sel", ("filter", ("atom", ("cmp", "lt", ("sq", "cur"), ("sq", "root", ("i", 2))))))), strs, {"scale": "long-strings"}))
+    for q in (("q", ("desc", ("sel", ("name", S("x"))))), ("q", ("desc", ("sel", "wild"))), ("q", ("desc", ("sel", ("idx", 0))))):
+        out.append((q, deep, {"scale": "depth-60"}))
+    q = ("q",) + tuple(("sel", ("idx", 0)) if i % 2 == 0 else ("sel", ("name", S("a"))) for i in range(60)) + (("sel", ("name", S("x"))),)
+    out.append((q, deep, {"scale": "segments-61"}))
+    return out
+
+
 class C01(EvalProp):
     pid = "C01"
+    scale = True
     design_ref = "DESIGN.md section 3, C01"
     technique = "Coq refinement proof (model = RFC semantics, mutual induction over the AST) + differential correspondence"
     level_text = ("Unbounded Coq theorems relate the hand model of the evaluator to the RFC 9535 nodelist semantics for every "
@@ -283,6 +353,7 @@ class C01(EvalProp):
 
 class C02(EvalProp):
     pid = "C02"
+    scale = True
     design_ref = "DESIGN.md section 3, C02"
     technique = "Coq refinement proof + confinement of the selector-major deviation + differential correspondence"
     level_text = ("Theorem A (Refine.v): the model's result sequence equals the RFC semantics with the one switch sel_major on, for "
@@ -468,6 +539,7 @@ def filt(atom):
 
 class C04(EvalProp):
     pid = "C04"
+    scale = True
     design_ref = "DESIGN.md section 3, C04"
     technique = "Coq proof (induction on JSON values) of the comparison table + exhaustive operand-kind correspondence"
     level_text = ("Coq theorems: for all JSON values on both sides (any nesting), all operand forms (literal, singular query that may "
@@ -542,6 +614,7 @@ class C04(EvalProp):
 
 class C05(EvalProp):
     pid = "C05"
+    scale = True
     design_ref = "DESIGN.md section 3, C05"
     technique = "Coq refinement proof of filter evaluation (mutual induction) + formula/valuation correspondence"
     level_text = ("Coq theorems: the model of Filter::process/process_elem/filter_item, FilterAtom::process and Test::process computes the RFC "
@@ -649,6 +722,7 @@ class C14(EvalProp):
 
 class C10(EvalProp):
     pid = "C10"
+    scale = True
     design_ref = "DESIGN.md section 3, C10"
     technique = "Coq proofs of length/count/value and of the regex matcher against a denotational I-Regexp semantics + correspondence"
     level_text = ("Coq theorems: the model of length/count/value in test_function.rs computes RFC 9535 2.4.4-2.4.6 for every argument form a "
